@@ -283,9 +283,8 @@ pub fn remove_children<S: Src, const A: u8, const N: usize, const F: usize, cons
         check!(s, got == exp, "C10,C01:remove_children removes exactly the covered entries");
     }
     if p.1 == 0 {
-        if A & SLOTS != 0 {
-            check!(s, map.__verif_len() == 1 && map.__verif_free().len() == 0, "C10,C16:zero-length selector leaves one slot and an empty free list");
-        }
+        // cheap (no read-back), so asserted in every group
+        check!(s, map.__verif_len() == 1 && map.__verif_free().len() == 0, "C10,C16:zero-length selector leaves one slot and an empty free list");
     } else {
         check_structure::<S, A, N, F, N, G>(s, &pre, &map, false);
     }
